@@ -65,6 +65,27 @@ theorem Sys.serve_forwarded {s : Sys} (h : s.Inv) (hp : ∃ w ∈ s.bal.ws, 0 < 
     · subst hsome; simp at hrt
     · exact hnsel i rfl
 
+/-- behind the rebalancer, on a pool with a positive weight: the effective weights after a request are
+    those of the adjustment the request runs -/
+theorem Sys.serve_ws {s : Sys} (h : s.Inv) (hv : s.viaRb = true) (hp : ∃ w ∈ s.bal.ws, 0 < w)
+    (cookie : Option Key) (mt : Option Mut) :
+    (s.step (.serve cookie mt)).1.bal.ws = (s.reb.adjust s.now).servers.map (·.cur) := by
+  obtain ⟨a, _, c⟩ := Sys.step_spec h (sp := s.configured) (fun _ => rfl) (.serve cookie mt)
+  have hws := (a.reb (by rw [c.viaRb]; exact hv)).ws
+  obtain ⟨y, f, hfw⟩ := Sys.serve_forwarded h hp cookie mt
+  unfold Sys.step at hws hfw ⊢
+  simp only at hws hfw ⊢
+  cases hrt : (s.bal.route s.sticky cookie).1 with
+  | err e => rw [hrt] at hfw; simp at hfw
+  | fwd ref st' =>
+    rw [hrt] at hws
+    simp only at hws ⊢
+    rw [if_pos hv] at hws ⊢
+    have hsv : ((s.withBal ((s.bal.route s.sticky cookie).2.mutate ref mt)).reb.adjust s.now).servers =
+        (s.reb.adjust s.now).servers := Reb.adjust_servers_bal s.reb _ s.now
+    rw [← hsv]
+    exact hws.symm
+
 /-- after a successful membership / configured-weight change through the rebalancer every effective
     weight is the configured one -/
 theorem Sys.restored_of_all_orig {s : Sys} (h : s.Inv) (hv : s.viaRb = true)
